@@ -13,5 +13,6 @@ func init() {
 		gfSpec{Pkg: "./pkg/core/native", Recv: "NEO", Func: "distributeGas", Lean: "neoDistributeGas"},
 		gfSpec{Pkg: "./pkg/core/native", Recv: "NEO", Func: "calculateBonus", Lean: "neoCalculateBonus"},
 		gfSpec{Pkg: "./pkg/core/native", Recv: "NEO", Func: "dropCandidateIfZero", Lean: "neoDropCandidateIfZero"},
+		gfSpec{Pkg: "./pkg/core/native", Recv: "nep17TokenNative", Func: "transferDeferrable", Lean: "nep17Transfer"},
 	)
 }
